@@ -47,7 +47,7 @@ func runSubStack(e *vlib.Env) vlib.Result {
 			kinds[i], tags[i] = "T", fmt.Sprintf("t%d", i)
 		}
 	}
-	if e.Idx%10 == 5 && depth >= 2 { // frequent "same metrics decorator twice"
+	if e.Idx%12 == 5 && depth >= 2 { // frequent "same metrics decorator twice"
 		p := r.Perm(depth)
 		kinds[p[0]], kinds[p[1]] = "M", "M"
 		tags[p[0]], tags[p[1]] = "", ""
